@@ -21,6 +21,9 @@ func runPolicy(c *Ctx) {
 	if c.Shard == 0 && c.Begin("policy-versioned") {
 		policyVersioned(c)
 	}
+	if c.Shard == 0 && c.Begin("policy-deep") {
+		deepReject(c)
+	}
 	if c.Shard == 0 && c.Begin("policy-rerun") {
 		policyRerun(c)
 		c.Note("second runs", "shape 0 with declaration-free sub-commands: a first accepted Run, then on the same instance a second Run over {rejections at c1 / d1 / c2, one accepted control} x every policy assignment of the path")
@@ -177,7 +180,37 @@ func kindSpecs(ks []int) string {
 	return strings.Join(p, ",")
 }
 
+// deepReject: a five-level tree with siblings on every level; every command rejects an unknown option / a stray
+// argument, and the usage printed is the one of exactly that command (full path).
+func deepReject(c *Ctx) {
+	shape := mkTree("app", mkTree("c1", mkTree("d1", mkTree("e1 f1", mkTree("g1"), mkTree("g2 h2"), mkTree("g3")), mkTree("e2", mkTree("g4")), mkTree("e3 f3", mkTree("g5"), mkTree("g6"))), mkTree("d2")), mkTree("c2"))
+	slots := numberSlots(shape)
+	assign := make([]int, len(slots)) // kind 0 everywhere: no option, no argument
+	n := 0
+	enumPaths(shape, func(target *tnode, names []string) {
+		for pol := 0; pol < 3; pol++ {
+			pols := make([]int, len(slots))
+			for i := range pols {
+				pols[i] = -1
+			}
+			pols[shape.slot] = pol
+			for _, tail := range [][]string{{"-z"}, {"stray"}} {
+				if len(tail) == 1 && tail[0] == "stray" && len(target.kids) > 0 {
+					// still a rejection (not a sub-command name), at the same command
+				}
+				n++
+				policyCaseV(c, 99, shape, assign, pols, append(append([]string{}, names...), tail...), false)
+			}
+		}
+	})
+	c.Note("deep tree", fmt.Sprintf("%s: %d rejections (an unknown option, a stray argument) at every command reached through every alias combination x the three root policies", shapeText(shape), n))
+}
+
 func replayPolicy(c *Ctx, cs Case) {
+	if cInt(cs, "shape") == 99 {
+		deepReject(c) // small: the whole deep-tree enumeration
+		return
+	}
 	if rr, _ := cs["rerun"].(bool); rr {
 		policyRerun(c) // small: re-run the whole second-run enumeration
 		return
